@@ -62,11 +62,23 @@ fn tid(k: u8) -> std::any::TypeId {
     table[(k as usize) % 128]
 }
 
+#[cfg(not(feature = "fn_meta"))]
 impl fn_graph::DataAccessDyn for Acc {
     fn borrows(&self) -> fn_graph::TypeIds {
         self.reads.iter().map(|k| tid(*k)).collect()
     }
     fn borrow_muts(&self) -> fn_graph::TypeIds {
+        self.writes.iter().map(|k| tid(*k)).collect()
+    }
+}
+
+/// with fn_graph's `fn_meta` feature the access lists come from `fn_meta::FnMetaDyn` through fn_graph's blanket impl
+#[cfg(feature = "fn_meta")]
+impl fn_meta::FnMetaDyn for Acc {
+    fn borrows(&self) -> fn_meta::TypeIds {
+        self.reads.iter().map(|k| tid(*k)).collect()
+    }
+    fn borrow_muts(&self) -> fn_meta::TypeIds {
         self.writes.iter().map(|k| tid(*k)).collect()
     }
 }
